@@ -1288,6 +1288,11 @@ func (m *Machine) evalInstr(fr *frame, ins ssa.Value) Val {
 		switch xt := x.X.Type().Underlying().(type) {
 		case *types.Slice:
 			s := m.get(fr, x.X).(Slice)
+			if !idx.IsConst() && s.n > 16 && onlyLoaded(x) {
+				if p, ok := m.sparseIndex(s, sizeof(xt.Elem()), idx, fr.fn); ok {
+					return p
+				}
+			}
 			i := m.boundsIndex(idx, s.n, fr.fn)
 			return Ptr{s.p.obj, s.p.off + i*sizeof(xt.Elem())}
 		case *types.Pointer:
@@ -1451,6 +1456,80 @@ func (m *Machine) tableLookup(base Ptr, es, n int, idx *Term) (*Term, bool) {
 		return Ite(b, build(lo|1<<bit, bit-1), build(lo, bit-1))
 	}
 	return build(0, bitsN-1), true
+}
+
+// onlyLoaded: the element address is used for loads only (then any index whose element has the same contents is an
+// equally good representative).
+func onlyLoaded(x *ssa.IndexAddr) bool {
+	refs := x.Referrers()
+	if refs == nil || len(*refs) == 0 {
+		return false
+	}
+	for _, r := range *refs {
+		u, ok := r.(*ssa.UnOp)
+		if !ok || u.Op != token.MUL {
+			return false
+		}
+	}
+	return true
+}
+
+// sparseIndex handles a symbolic index into a large concrete table in which all but a few elements have the same
+// contents (e.g. a field-number index that is nil except at the declared numbers): one branch per exceptional element,
+// and one representative for all the others. Sound because the address is only loaded from (onlyLoaded) and the path
+// condition records exactly which case was taken.
+func (m *Machine) sparseIndex(s Slice, es int, idx *Term, fn *ssa.Function) (Ptr, bool) {
+	if s.p.obj == nil || s.p.off+s.n*es > s.p.obj.size {
+		return Ptr{}, false
+	}
+	key := func(i int) string {
+		var sb strings.Builder
+		for k := 0; k < es; k++ {
+			c := s.p.obj.cells[s.p.off+i*es+k]
+			if c.ref != nil {
+				fmt.Fprintf(&sb, "r%p.%d;", c.ref, c.k)
+			} else if c.t != nil && c.t.IsConst() {
+				fmt.Fprintf(&sb, "c%d;", c.t.c)
+			} else {
+				return ""
+			}
+		}
+		return sb.String()
+	}
+	groups := map[string][]int{}
+	for i := 0; i < s.n; i++ {
+		k := key(i)
+		if k == "" {
+			return Ptr{}, false
+		}
+		groups[k] = append(groups[k], i)
+	}
+	major := ""
+	for k, g := range groups {
+		if major == "" || len(g) > len(groups[major]) || (len(g) == len(groups[major]) && g[0] < groups[major][0]) {
+			major = k
+		}
+	}
+	if s.n-len(groups[major]) > 48 {
+		return Ptr{}, false
+	}
+	oob := Or(Slt(idx, Const(idx.w, 0)), Sle(Const(idx.w, uint64(s.n)), idx))
+	if m.branch(oob) {
+		endPath("PANIC", "index out of range [symbolic] with length %d in %s", s.n, fn)
+	}
+	var minor []int
+	for k, g := range groups {
+		if k != major {
+			minor = append(minor, g...)
+		}
+	}
+	sort.Ints(minor)
+	for _, j := range minor {
+		if m.branch(Eq(idx, Const(idx.w, uint64(j)))) {
+			return Ptr{s.p.obj, s.p.off + j*es}, true
+		}
+	}
+	return Ptr{s.p.obj, s.p.off + groups[major][0]*es}, true
 }
 
 func (m *Machine) boundsIndex(idx *Term, n int, fn *ssa.Function) int {
